@@ -24,12 +24,12 @@ CLAIMED.update({
         text="Theorems for every executor that is a function of (node, arguments), every acyclic gate-free graph with unique outputs and "
              "every input: the dataflow equations (Sol: argument precedence upstream output > run-time > bound > default; unsatisfiable nodes "
              "contribute nothing) have exactly one solution; every COMPLETED run of either runner ends in it; a node has run iff its inputs "
-             "can be satisfied; and the run TERMINATES: after depth+1 supersteps nothing is ready (settled-nodes invariant by induction on rank), "
+             "can be satisfied - at most once when no upstream-fed parameter has a fallback; and the run TERMINATES: after depth+1 supersteps nothing is ready (settled-nodes invariant by induction on rank), "
              "so with max_iterations >= depth+1 it never ends in InfiniteLoopError and, when no node function raises, it completes in that "
              "solution (total correctness). Tied to /repo by runs against the dependency-order evaluator SpecDenote.denote and the engine model.",
         design_ref="DESIGN.md section 5 C01",
-        note="'exactly once' (one invocation per satisfiable node when no upstream-fed parameter has a default) is decided by the oracle's call "
-             "log, not proved; graphs with wait_for are outside the theorems (known finding F-j shows the full statement is false there). "
+        note="'exactly once' is proved as: without fallbacks on upstream-fed parameters a node is scheduled in at most one superstep of a run "
+             "(C01_at_most_once) and has run iff its inputs can be satisfied; the call log itself is compared by the oracle; graphs with wait_for are outside the theorems (known finding F-j shows the full statement is false there). "
              "Model: Engine.v; executor contract: WF in C01Proofs.v; termination: C01Term.v.",
         technique="Coq proof (invariant over reachable states, uniqueness of the dataflow fix-point by induction on rank, termination by a "
                   "settled-nodes invariant) + spec oracle",
